@@ -13,6 +13,7 @@ import collections
 import random
 import socket
 import time
+from datetime import timedelta
 
 LEVEL = "exploration"
 RULE = ("settings {127.0.0.1, 0.0.0.0} x free ports x endpoints; inputs: valid GET, other path, other method, truncated at every offset, "
@@ -23,7 +24,7 @@ RULE = ("settings {127.0.0.1, 0.0.0.0} x free ports x endpoints; inputs: valid G
 ASSUMPTIONS = ["stock asyncio loop, real loopback sockets, real time; verdicts never depend on wall-clock deadlines: a response is awaited to EOF under a 5 s watchdog whose expiry makes the case inconclusive",
                "status codes are demanded only for well-formed requests delivered in one segment"]
 EVAL_COUNTER = "inputs_judged"
-REQUIRED = ["inputs_judged", "probes_ok", "wellformed_checked", "malformed_sent", "status_flips", "port_lifetime_checks", "jobs_completed", "shutdowns_with_lingering_connections", "idle_worker_probes"]
+REQUIRED = ["inputs_judged", "probes_ok", "wellformed_checked", "malformed_sent", "status_flips", "port_lifetime_checks", "jobs_completed", "shutdowns_with_lingering_connections", "idle_worker_probes", "probes_while_draining"]
 CASE_TIMEOUT = 120
 
 
@@ -37,6 +38,7 @@ def gen_cases(tier, seed):
                       # connections a client keeps open while the worker stops: idle, half a request, a served one it never closes
                       "linger": rnd.sample(["idle", "partial", "idle", "binary", "slow_reader"], rnd.choice([0, 1, 2, 4]))})
     cases.append({"type": "idle_worker", "seed": 1})
+    cases.append({"type": "draining", "seed": 1})
     return cases
 
 
@@ -204,6 +206,118 @@ async def idle_worker_scenario(case, out, stats, fps):
                         pass
                     break
         fps.add(f"idle-worker/{variant}")
+        await conn.disconnect()
+
+
+async def draining_scenario(case, out, stats, fps):
+    """The worker has stopped consuming (message limit reached / stop signal / its only consumer failed) while an actor is still
+    executing: run() is still in progress, so the port answers - 200, or 503 when a consumer failed - until run() is over."""
+    import signal
+
+    from repid import Connection, Job, Router, Worker
+    from repid.connections.in_memory.consumer import _InMemoryConsumer
+    from repid.connections.in_memory.message_broker import InMemoryMessageBroker
+    from repid.converter import BasicConverter
+    from repid.health_check_server import HealthCheckServerSettings
+    from repid.router import RouterDefaults
+
+    good = b"GET /healthz HTTP/1.1\r\nHost: probe\r\n\r\n"
+    loop = asyncio.get_running_loop()
+    for variant in ("limit", "signal", "consumer_failed"):
+        fail = asyncio.Event()
+
+        class FaultyConsumer(_InMemoryConsumer):
+            async def consume(self):
+                # (the failure arrives while the consumer waits for the next message - the queue is empty by then)
+                get, boom = asyncio.ensure_future(super().consume()), asyncio.ensure_future(fail.wait())
+                try:
+                    await asyncio.wait({get, boom}, return_when=asyncio.FIRST_COMPLETED)
+                finally:
+                    boom.cancel()
+                    if not get.done():
+                        get.cancel()
+                if get.done() and not get.cancelled():
+                    return get.result()
+                raise RuntimeError("consumer failure (injected)")
+
+        class Broker(InMemoryMessageBroker):
+            CONSUMER_CLASS = FaultyConsumer
+
+        conn = Connection(Broker())
+        await conn.connect()
+        r = Router(defaults=RouterDefaults(converter=BasicConverter))
+        gate, slow_started, fast_done = asyncio.Event(), asyncio.Event(), asyncio.Event()
+        finished = []
+
+        async def slow():
+            slow_started.set()
+            await gate.wait()
+            finished.append("slow")
+
+        async def fast():
+            await slow_started.wait()
+            finished.append("fast")
+            fast_done.set()
+
+        r.actor(name="slow", queue="q")(slow)
+        r.actor(name="fast", queue="q")(fast)
+        await conn.message_broker.queue_declare("q")
+        await Job("slow", queue="q", id_="s1", store_result=False, timeout=timedelta(seconds=60), _connection=conn).enqueue()
+        await Job("fast", queue="q", id_="f1", store_result=False, timeout=timedelta(seconds=60), _connection=conn).enqueue()
+        port = free_port()
+        worker = Worker(routers=[r], tasks_limit=4, messages_limit=2 if variant == "limit" else float("inf"), graceful_shutdown_time=20.0,
+                        handle_signals=[signal.SIGUSR2], run_health_check_server=True,
+                        health_check_server_settings=HealthCheckServerSettings(address="127.0.0.1", port=port), _connection=conn)
+        run_task = loop.create_task(worker.run())
+        try:
+            await asyncio.wait_for(fast_done.wait(), 10)
+        except asyncio.TimeoutError:
+            out.append(V("harness_or_api_error", f"draining/{variant}", "the two jobs never ran"))
+            run_task.cancel()
+            continue
+        if variant == "signal":
+            import os
+
+            os.kill(os.getpid(), signal.SIGUSR2)
+        elif variant == "consumer_failed":
+            fail.set()
+        want = 503 if variant == "consumer_failed" else 200
+        # consuming winds down within a few loop turns; the slow actor keeps run() in progress for as long as the gate is shut
+        seen = collections.Counter()
+        for k in range(12):
+            await asyncio.sleep(0.02 if k else 0.15)
+            if run_task.done():
+                out.append(V("harness_or_api_error", f"draining/{variant}", f"run() ended while an actor was still executing: {run_task}"))
+                break
+            stats["port_lifetime_checks"] += 1
+            stats["probes_while_draining"] += 1
+            resp, how = await talk(port, [good], read_timeout=2.0)
+            code = status_of(resp) if resp else how
+            seen[code] += 1
+        fps.add(f"draining/{variant}/{sorted(seen)}")
+        if variant == "consumer_failed" and seen.get(200) and seen.get(503) and not (set(seen) - {200, 503}):
+            seen.pop(200)  # (probes that came in before the failing consume() call was reached)
+        if set(seen) != {want}:
+            rule = "port_lifetime" if "refused" in seen else "wrong_status"
+            out.append(V(rule, f"draining/{variant}", f"consuming has ended ({variant}) while an actor is still executing inside Worker.run(): 12 probes answered {dict(seen)}, expected {want} every time"))
+        gate.set()
+        try:
+            await asyncio.wait_for(run_task, 10)
+        except asyncio.TimeoutError:
+            out.append(V("port_lifetime", f"draining/{variant}", "run() did not return within 10 s after the last actor finished"))
+            run_task.cancel()
+        except Exception:  # noqa: BLE001
+            pass
+        stats["port_lifetime_checks"] += 1
+        resp, how = await talk(port, [good], read_timeout=1.0)
+        if how != "refused":
+            out.append(V("port_lifetime", f"draining/{variant}/after", f"run() is over; port {port} still answers {status_of(resp) if resp else how}"))
+            try:
+                await worker.health_check_server.stop()
+            except Exception:  # noqa: BLE001
+                pass
+        if "slow" not in finished:
+            out.append(V("harness_or_api_error", f"draining/{variant}", "the slow actor never finished"))
         await conn.disconnect()
 
 
@@ -500,6 +614,8 @@ def run_case(case):
     try:
         if case.get("type") == "idle_worker":
             asyncio.run(idle_worker_scenario(case, out, stats, fps))
+        elif case.get("type") == "draining":
+            asyncio.run(draining_scenario(case, out, stats, fps))
         else:
             asyncio.run(scenario(case, out, stats, fps, samples, incon))
     except Exception as exc:  # noqa: BLE001
